@@ -1,0 +1,15 @@
+//! Child module of `countedindex` (only with `--cfg multiqueue2_verif`).
+#![allow(dead_code)]
+
+use super::CountedIndex;
+
+impl CountedIndex {
+    /// Harness-only: read the raw counter without a scheduling point.
+    pub fn verif_peek(&self) -> usize {
+        self.val.peek()
+    }
+    /// Harness-only: overwrite the raw counter without a scheduling point.
+    pub fn verif_poke(&self, v: usize) {
+        self.val.poke(v)
+    }
+}
